@@ -296,7 +296,12 @@ func (p *Proxy) Handle(ctx *context.Context) (result string) {
 	req := ctx.GetInputRequest().(*httpprot.Request)
 
 	if p.mirrorPool != nil && p.mirrorPool.filter.Match(req) {
-		go p.mirrorPool.handle(ctx, true)
+		// The mirrored request is bound and prepared here, on the goroutine
+		// of the pipeline, only sending it is asynchronous: after Handle
+		// returned, the pipeline may switch ctx to another namespace, and a
+		// goroutine that starts late would mirror another request (or panic
+		// if the namespace has no request yet).
+		p.mirrorPool.handle(ctx, true)
 	}
 
 	sp := p.mainPool
